@@ -8,7 +8,9 @@ spec/traverse/Identity.tla  (H uninterpreted / learned; Preimage(kind, wire) tab
        structural CBOR rewriter (definite <-> indefinite, non-minimal heads, reordered map entries, untagged sets, also
        inside #6.24 embedded CBOR) that
        the library still decodes; wire bytes located by the harness, candidate pre-images hashed with
-       Hasher::<256/224>::hash, library-reported ids validated by TraceIdentity
+       Hasher::<256/224>::hash, library-reported ids validated by TraceIdentity; plus minimal artefacts (datums of
+       1 / 2 bytes, empty containers, smallest native / Plutus scripts, canonical and non-canonical spellings) spliced
+       into real transactions of each Alonzo+ era (witness set, inline datums, reference scripts)
 """
 import json
 import os
@@ -55,6 +57,7 @@ def run(ctx):
     tr_all = ctx.path("trace_all.ndjson")
     info_p = ctx.path("info.ndjson")
     args = ["identity-trace", "--seed", ctx.seed, "--out", tr_all, "--info", info_p, "--rewrites", 8 if ctx.thorough else 4]
+    args += ["--inject-blocks", 6 if ctx.thorough else 2]
     if ctx.thorough:
         args += ["--chunk-blocks", 100000]
     ctx.run_bin(binary, args)
@@ -70,6 +73,9 @@ def run(ctx):
     ctx.cov["m3_ids"] = stats["ids"]
     ctx.cov["m3_by_kind"] = stats["by_kind"]
     ctx.cov["m3_rewrites"] = {k: stats[k] for k in ("rewrites_tried", "rewrites_unchanged", "rewrites_decoded", "by_focus")}
+    ctx.cov["m3_minimal_artefact_blocks"] = {"tried": stats["injected_tried"], "decoded": stats["injected_decoded"]}
+    if stats["injected_decoded"] < 30:
+        raise vlib.ToolError("minimal-artefact variants are not decoded any more: %s" % json.dumps(stats))
     ctx.cov["m3_skipped"] = [{"src": e["src"], "why": e["why"][:160]} for e in skips][:10]
 
     verdict = renumber([e for e in allev if not (e["ev"] == "id" and e["api"] in DRIFT_APIS)])
@@ -85,7 +91,7 @@ def run(ctx):
         if first.get("ev") != "id":
             raise vlib.ToolError("harness fact rejected by the trace spec: %s" % json.dumps(first))
         noncanon = "~" in first.get("at", "")
-        key = "%s/%s/%s" % (first["kind"], first["api"].replace(" ", "_"), "re-encoded" if noncanon else "as-is")
+        key = "%s/%s/%s" % (first["kind"], first["api"].replace(" ", "_"), "re-encoded" if noncanon else ("minimal-artefact" if "+" in first.get("at", "") else "as-is"))
         ctx.report(key, "identifier reported for %s is not the hash of the wire bytes (with the %s prefix rule): %s"
                    % (first.get("at"), first["kind"], json.dumps(first)), payload={"event": first})
         # resume with the rest of the trace: restart at the enclosing block (drop the offending event)
